@@ -460,24 +460,41 @@ class ImplWorld:
             out[-1].append(x)
         return '[ ' + ' '.join(set_s(g) for g in out) + ' ]' if out else '[  ]'
 
+    @staticmethod
+    def spoil(x):
+        """After a returned list / set has been rendered, edit it the way a careless caller might
+        (the API hands out fresh collections: an internal one handed out by mistake would now be
+        corrupted, and every later step would show it)."""
+        try:
+            if isinstance(x, list):
+                x.append('@spoiled'); x.reverse()
+            elif isinstance(x, set):
+                x.add('@spoiled')
+        except Exception:
+            pass
+        return x
+
     def query(self, c, T):
         q = T.next()
         b = lambda x: 'T' if x else 'F'
+        _ls = lambda x: (lambda r: (self.spoil(x), r)[1])(list_s(x))
+        _ss = lambda x: (lambda r: (self.spoil(x), r)[1])(set_s(x))
         if q == 'order': return str(c.orderOf(T.name()))
         if q == 'index': return str(c.indexOf(T.name()))
-        if q == 'faces': return set_s(c.faces(T.name()))
-        if q == 'cofaces': return set_s(c.cofaces(T.name()))
-        if q == 'basis': return set_s(c.basisOf(T.name()))
+        if q == 'faces': return _ss(c.faces(T.name()))
+        if q == 'cofaces': return _ss(c.cofaces(T.name()))
+        if q == 'basis': return _ss(c.basisOf(T.name()))
         if q == 'contains': return b(T.name() in c)
         if q == 'maxorder': return str(c.maxOrder())
-        if q == 'counts': return '[ ' + ' '.join(map(str, c.numberOfSimplicesOfOrder())) + ' ]'
+        if q == 'counts':
+            xs = c.numberOfSimplicesOfOrder(); r = '[ ' + ' '.join(map(str, xs)) + ' ]'; self.spoil(xs); return r
         if q == 'total': return str(c.numberOfSimplices())
-        if q == 'simplices': return list_s(c.simplices(reverse=T.bool()))
-        if q == 'oforder': return list_s(c.simplicesOfOrder(T.nat()))
+        if q == 'simplices': return _ls(c.simplices(reverse=T.bool()))
+        if q == 'oforder': return _ls(c.simplicesOfOrder(T.nat()))
         if q == 'closure':
-            s = T.name(); r = T.bool(); e = T.bool(); return self.groups(c, c.closureOf(s, reverse=r, exclude_self=e))
+            s = T.name(); r = T.bool(); e = T.bool(); xs = c.closureOf(s, reverse=r, exclude_self=e); g = self.groups(c, xs); self.spoil(xs); return g
         if q == 'partof':
-            s = T.name(); r = T.bool(); e = T.bool(); return self.groups(c, c.partOf(s, reverse=r, exclude_self=e))
+            s = T.name(); r = T.bool(); e = T.bool(); xs = c.partOf(s, reverse=r, exclude_self=e); g = self.groups(c, xs); self.spoil(xs); return g
         if q == 'withbasis':
             r = c.simplexWithBasis(T.names()); return 'None' if r is None else tok(r)
         if q == 'withfaces':
@@ -504,11 +521,12 @@ class ImplWorld:
         if q == 'integrate':
             a = T.str(); d = T.int(); return str(self.integrator(a, d).integrate(c))
         if q == 'getindex': return idx_tok(c.getIndex())
-        if q == 'indices': return '[ ' + ' '.join(idx_tok(i) for i in c.indices(reverse=T.bool())) + ' ]'
+        if q == 'indices':
+            xs = c.indices(reverse=T.bool()); r = '[ ' + ' '.join(idx_tok(i) for i in xs) + ' ]'; self.spoil(xs); return r
         if q == 'isindex': return b(c.isIndex(T.idx()))
         if q == 'addedat': return idx_tok(c.addedAtIndex(T.name()))
         if q == 'addedatindex':
-            i = T.idx(); r = T.bool(); return self.groups(c, c.simplicesAddedAtIndex(i, reverse=r))
+            i = T.idx(); r = T.bool(); xs = c.simplicesAddedAtIndex(i, reverse=r); g = self.groups(c, xs); self.spoil(xs); return g
         if q == 'containssome': return b(c.containsSimplexAtSomeIndex(T.name()))
         raise ValueError('query ' + q)
 
@@ -534,17 +552,18 @@ class ImplWorld:
             mx = c.maxOrder()
             out.append('SNAP kind=%d max=%d' % (1 if isf else 0, mx))
             for k in range(mx + 1):
-                out.append('L%d %s' % (k, list_s(c.simplicesOfOrder(k))))
+                xs = c.simplicesOfOrder(k); out.append('L%d %s' % (k, list_s(xs))); self.spoil(xs)
             ss = c.simplices()
             out.append('ALL ' + list_s(ss))
-            out.append('REV ' + list_s(c.simplices(reverse=True)))
+            xs = c.simplices(reverse=True); out.append('REV ' + list_s(xs)); self.spoil(xs)
+            self.spoil(c.simplices())
             for s in ss:
                 out.append('S %s o=%d i=%d F%s C%s B%s A%s' % (tok(s), c.orderOf(s), c.indexOf(s), set_s(c.faces(s)),
                                                              set_s(c.cofaces(s)), set_s(c.basisOf(s)), dict_s(c[s])))
             for k in range(mx + 2):
                 out.append('B%d %s' % (k, mat_s(c.boundaryOperator(k))))
             if isf:
-                out.append('I %s [ %s ]' % (idx_tok(c.getIndex()), ' '.join(idx_tok(i) for i in c.indices())))
+                xs = c.indices(); out.append('I %s [ %s ]' % (idx_tok(c.getIndex()), ' '.join(idx_tok(i) for i in xs))); self.spoil(xs)
                 for s in ss:
                     out.append('BIRTH %s %s' % (tok(s), idx_tok(c.addedAtIndex(s))))
         except Exception as e:
